@@ -74,6 +74,7 @@ fn conv<T>(r: Result<lexpr::parse::Result<T>, Abnormal>, to_value: impl FnOnce(T
 pub fn run_mem(opts: Options, api: Api, bytes: &[u8], as_str: bool, mon: &mut Mon) -> Vec<PRes> {
     let what = if as_str { "str source" } else { "slice source" };
     let s = if as_str { Some(std::str::from_utf8(bytes).expect("caller checked")) } else { None };
+    beat();
     mon.evaluations += 1;
     match api {
         Api::Value => {
@@ -118,6 +119,7 @@ fn drain<'de, R: lexpr::parse::Read<'de>>(
             sh.begin_op();
         }
         let before = shared.map(|s| s.n_fired()).unwrap_or(0);
+        beat();
         let r = match api {
             Api::DrainValue => guarded(|| parser.value_iter().next().transpose()),
             Api::DrainIter => guarded(|| Iterator::next(&mut parser).transpose()),
@@ -194,6 +196,7 @@ pub fn run_stream(case: &StreamCase, mon: &mut Mon) -> StreamRun {
     let mut sim = SimReader::new(&case.input, &case.plan);
     let shared = sim.shared.clone();
     shared.trace.set(mon.keep_log);
+    beat();
     mon.evaluations += 1;
     let runner = StreamRunner {
         opts: opts::parse_options(case.opts),
